@@ -31,6 +31,9 @@ def observation(c) -> str:
     import hashlib
     rend = hashlib.sha256((repr(c) + "\x00" + str(c) + "\x00" + repr(c.instrument_tracks)).encode("utf-8", "replace")).hexdigest()[:16]
     kinds = type(c.instrument_tracks).__name__ + ":" + ",".join(sorted({type(dd).__name__ for dd in c.instrument_tracks.values()}))
+    # how every single event renders (in chart order: a rendering that leaves a trace changes how its neighbours render next time)
+    evs, _ = events_of(c)
+    rend += "/" + hashlib.sha256("\x00".join(str(e) for e in evs).encode("utf-8", "replace")).hexdigest()[:16]
     return impl.dump_chart(c, []) + "|K " + keys + "|R " + rend + "|Y " + kinds
 
 
@@ -49,7 +52,10 @@ def rand_ops(rng, c, n):
             form = rng.choice(["none", "tick", "ticks", "time", "times", "neg", "rev"])
             ops.append(("nps", rng.randrange(len(ins)), rng.randrange(len(dif)), form, rng.randint(0, last + 5), rng.randint(0, last + 400)))
         elif r < 0.6:
-            ops.append(("tsat", rng.randint(-2, last + 500), rng.randint(0, 3)))
+            tk = rng.randint(-2, last + 500)
+            # the same tick asked several ways in a row: a hint that must be refused, no hint, the hint again
+            for h in rng.sample([0, 1, 2, 3, 5], rng.choice([1, 1, 2, 3])):
+                ops.append(("tsat", tk, h))
         elif r < 0.7:
             ops.append((rng.choice(["str", "repr", "eq", "ne"]),))
         elif r < 0.8:
@@ -71,10 +77,25 @@ def events_of(c):
     return ev, tracks
 
 
+_detail = [""]
+
+
+def _val(f):
+    try:
+        r = f()
+    except ValueError:
+        return "VE"
+    if isinstance(r, tuple):
+        return f"{impl.us(r[0])},{r[1]}"
+    return str(impl.us(r)) if isinstance(r, timedelta) else impl.rat(float(r))
+
+
 def apply(c, twin, op):
-    """perform one read-only operation; returns a short outcome string (never raises for documented outcomes)"""
+    """perform one read-only operation; returns a short outcome string (never raises for documented outcomes); the value the
+    operation produced is left in `_detail[0]` (it must be a function of chart and operation, not of what was asked before)"""
     ins, dif = impl.enums()
     kind = op[0]
+    _detail[0] = ""
     try:
         if kind == "getitem":
             try:
@@ -84,30 +105,13 @@ def apply(c, twin, op):
                 return "KeyError"
         if kind == "nps":
             _, i, d, form, a, b = op
-            try:
-                if form == "none":
-                    c.notes_per_second(ins[i], dif[d])
-                elif form == "tick":
-                    c.notes_per_second(ins[i], dif[d], a)
-                elif form == "ticks":
-                    c.notes_per_second(ins[i], dif[d], a, a + b)
-                elif form == "time":
-                    c.notes_per_second(ins[i], dif[d], timedelta(microseconds=a * 1000))
-                elif form == "times":
-                    c.notes_per_second(ins[i], dif[d], timedelta(microseconds=a), timedelta(microseconds=a + b * 1000))
-                elif form == "neg":
-                    c.notes_per_second(ins[i], dif[d], -1)
-                else:
-                    c.notes_per_second(ins[i], dif[d], a + b + 1, a)
-                return "found"
-            except ValueError:
-                return "ValueError"
+            args = {"none": (), "tick": (a,), "ticks": (a, a + b), "time": (timedelta(microseconds=a * 1000),),
+                    "times": (timedelta(microseconds=a), timedelta(microseconds=a + b * 1000)), "neg": (-1,)}.get(form, (a + b + 1, a))
+            _detail[0] = _val(lambda: c.notes_per_second(ins[i], dif[d], *args))
+            return "ValueError" if _detail[0] == "VE" else "found"
         if kind == "tsat":
-            try:
-                c.sync_track.bpm_events.timestamp_at_tick(op[1], start_iteration_index=op[2])
-                c.sync_track.bpm_events.timestamp_at_tick_no_optimize_return(op[1])
-            except ValueError:
-                pass
+            be = c.sync_track.bpm_events
+            _detail[0] = _val(lambda: be.timestamp_at_tick(op[1], start_iteration_index=op[2])) + "|" + _val(lambda: be.timestamp_at_tick_no_optimize_return(op[1]))
             return "unit"
         if kind == "str":
             str(c)
@@ -171,10 +175,11 @@ def run_case(text, ops):
         return "parse-failed:" + impl.err_name(e), [], []
     obs0 = observation(c)
     keys0 = obs0.rsplit("|K ", 1)[1].split("|R ")[0]
-    outs, maps = [], []
+    outs, maps, details = [], [], []
     problem = None
     for k, op in enumerate(ops):
         r = apply(c, twin, op)
+        details.append(_detail[0])
         obs = observation(c)
         outs.append(r)
         maps.append(obs.rsplit("|K ", 1)[1].split("|R ")[0])
@@ -185,6 +190,16 @@ def run_case(text, ops):
                 problem = (k, op, "observation changed: keys " + keys0 + " -> " + maps[-1])
             elif not (c == twin):
                 problem = (k, op, "chart no longer equals its identically parsed twin")
+    if problem is None:
+        # what an operation answers is a function of the chart and the operation: the same operation on a freshly parsed copy,
+        # with nothing asked before it, answers the same (checked for the value-producing operations, a bounded sample per case)
+        idx = [k for k, op in enumerate(ops) if op[0] in ("tsat", "nps")][:10]
+        for k in idx:
+            fresh, _, _ = impl.parse(text)
+            apply(fresh, twin, ops[k])
+            if _detail[0] != details[k]:
+                problem = (k, ops[k], f"answered {details[k]} after the operations before it, {_detail[0]} on a freshly parsed copy")
+                break
     return problem, outs, maps, keys0
 
 
@@ -200,6 +215,12 @@ def slice(ctx: fw.Ctx) -> fw.Outcome:
             diffs = rng.sample(range(4), min(4, len(src.tracks)))
             for tr, d in zip(src.tracks, diffs):
                 tr.inst, tr.diff = inst, d
+        if rng.random() < 0.35:
+            # a chart with a very late event (ticks of eight and more digits), after the ordinary ones
+            late = rng.randint(10**7, 10**9)
+            src.gevents.append((late, "section", "Outro"))
+            if src.tracks:
+                src.tracks[-1].groups.append(gen.NoteGroup(late + 5, {rng.randrange(5): 0}))
         R = gen.render(src, rng, prof)
         c, e, _ = impl.parse(R.text)
         if c is None:
